@@ -95,7 +95,7 @@ def run_history(case, acc, post_edit=None, entry_ops=False, prop="C14", active=(
     attach.ACTIVE.update(active)
     ctx.data["history_mode"] = case["mode"]
     g = {k: tuple(v) for k, v in case["g"].items()}
-    scfg = drivers.make_scfg(g)
+    scfg = drivers.make_scfg(g, "basic", drivers.how_for(g))
     tr = attach.track_of(scfg)
     done = drivers.run_stages(scfg, case["prefix"], ctx)
     if len(done) != len(case["prefix"]):
